@@ -1216,3 +1216,93 @@ func callbackWalker(c *ordCtx, rs *ast.RangeStmt, self types.Object) bool {
 	}
 	return sites > 0
 }
+
+// runORD6: map order can also enter through an iterator: maps.Keys / maps.Values / maps.All yield in the random order
+// of the map. The sequence (or the slice collected from it) must be sorted before it is used: wrapped in
+// slices.Sorted*/SortedFunc, or the variable it is collected into is sorted in place by a later statement of the same
+// block (sort.Strings, sort.Slice, slices.Sort, slices.SortFunc) before any other use.
+func runORD6(w *World, r *Result, only func(rel string) bool) int {
+	n := 0
+	sortsInPlace := map[string]bool{"sort.Strings": true, "sort.Ints": true, "sort.Slice": true, "sort.SliceStable": true, "sort.Sort": true, "sort.Stable": true, "slices.Sort": true, "slices.SortFunc": true, "slices.SortStableFunc": true}
+	for _, fi := range sortedFuncs(w) {
+		rel := w.Rel(fi.Obj.Pkg())
+		if fi.Decl.Body == nil || (only != nil && !only(rel)) {
+			continue
+		}
+		info := fi.Pkg.TypesInfo
+		// parent map
+		parent := map[ast.Node]ast.Node{}
+		var stack []ast.Node
+		ast.Inspect(fi.Decl.Body, func(x ast.Node) bool {
+			if x == nil {
+				stack = stack[:len(stack)-1]
+				return false
+			}
+			if len(stack) > 0 {
+				parent[x] = stack[len(stack)-1]
+			}
+			stack = append(stack, x)
+			return true
+		})
+		ast.Inspect(fi.Decl.Body, func(x ast.Node) bool {
+			call, ok := x.(*ast.CallExpr)
+			if !ok {
+				return true
+			}
+			full := fullName(calleeOf(info, call))
+			if full != "maps.Keys" && full != "maps.Values" && full != "maps.All" {
+				return true
+			}
+			n++
+			cons := full + "(" + es(call.Args[0]) + ")"
+			pos := w.Pos(call.Pos())
+			// climb: wrapped in a sorting collector?
+			var stmt ast.Stmt
+			sorted := false
+			for p := parent[call]; p != nil; p = parent[p] {
+				if c2, ok := p.(*ast.CallExpr); ok {
+					if f := fullName(calleeOf(info, c2)); strings.HasPrefix(f, "slices.Sorted") {
+						sorted = true
+					}
+				}
+				if s, ok := p.(ast.Stmt); ok {
+					stmt = s
+					break
+				}
+			}
+			if sorted {
+				r.ok("ORD-1", fi.Name, cons, pos, "the keys are collected through slices.Sorted*: a sorted slice, independent of the map order", true)
+				return true
+			}
+			// collected into a variable that a later statement of the same block sorts in place before any other use
+			if as, ok := stmt.(*ast.AssignStmt); ok && len(as.Lhs) == 1 && identOf(as.Lhs[0]) != nil {
+				v := objOf(info, identOf(as.Lhs[0]))
+				if blk, ok := parent[as].(*ast.BlockStmt); ok {
+					after := false
+					for _, st := range blk.List {
+						if st == ast.Stmt(as) {
+							after = true
+							continue
+						}
+						if !after || !usesObj(info, st, v) {
+							continue
+						}
+						if es0, ok := st.(*ast.ExprStmt); ok {
+							if c2, ok := es0.X.(*ast.CallExpr); ok && sortsInPlace[fullName(calleeOf(info, c2))] && len(c2.Args) >= 1 && identOf(c2.Args[0]) != nil && objOf(info, identOf(c2.Args[0])) == v {
+								sorted = true
+							}
+						}
+						break // the first statement that mentions the variable decides
+					}
+				}
+			}
+			if sorted {
+				r.ok("ORD-1", fi.Name, cons, pos, "the collected slice is sorted in place by the next statement that mentions it", true)
+			} else {
+				r.bad("ORD-1", fi.Name, cons, pos, "the iterator yields the keys in the random order of the map and nothing sorts them before they are used (a result of slices.Sorted that is discarded sorts nothing): the order of what follows differs from run to run")
+			}
+			return true
+		})
+	}
+	return n
+}
